@@ -339,6 +339,34 @@ def normalise_tree(n):
         if n["r"]["op"] in ("+", "*", "|", "&", "^") and _same_place(n["l"], n["r"]["r"]):
             return {"k": "assignop", "ty": n.get("ty"), "sp": n.get("sp"), "mac": n.get("mac"), "op": n["r"]["op"] + "=",
                     "l": n["l"], "r": n["r"]["l"], "from_assign": True}
+    # unsigned `x % 2^k` == `x & (2^k - 1)`, `x / 2^k` == `x >> k` (also as compound assignment)
+    if k in ("bin", "assignop") and n.get("op") in ("%", "/", "%=", "/=") and isinstance(n.get("r"), dict) \
+            and n["r"].get("k") == "lit" and isinstance(n["r"].get("v"), int) and not isinstance(n["r"].get("v"), bool):
+        v = n["r"]["v"]
+        ty = n.get("ty") if k == "bin" else (n.get("l") or {}).get("ty")
+        if v > 0 and v & (v - 1) == 0 and ty in ("u8", "u16", "u32", "u64", "u128", "usize"):
+            eq = "=" if k == "assignop" else ""
+            if n["op"].startswith("%"):
+                n = dict(n, op="&" + eq, r=dict(n["r"], v=v - 1), from_pow2=True)
+            else:
+                n = dict(n, op=">>" + eq, r=dict(n["r"], v=v.bit_length() - 1), from_pow2=True)
+    from . import control
+    if k == "while":
+        r = control.while_let(n)
+        if r is not None:
+            return r
+    if k == "match" and n.get("src", "").startswith("Normal"):
+        r = control.match_bools(n) or control.match_guards(n)
+        if r is not None:
+            return normalise_tree(r)
+    if k == "mcall":
+        r = control.combinator(n)
+        if r is not None:
+            return normalise_tree(r)
+    if k == "try":
+        r = control.try_known(n)
+        if r is not None:
+            return r
     if k == "match" and len(n.get("arms", [])) == 2 and not n["arms"][0].get("guard") and not n["arms"][1].get("guard") \
             and n.get("src", "").startswith("Normal"):
         a, b = n["arms"]
@@ -375,7 +403,11 @@ def normalise_tree(n):
         if r is not None:
             return r
     if k == "block":
+        control.ref_alias(n)
+        control.for_from_next_loops(n)
         _distribute_fn_select(n)
+        if control.let_of_diverging_if(n):
+            n["expr"] = normalise_tree(n["expr"])
         stmts = n.get("stmts", [])
         for i, st in enumerate(stmts):
             if st.get("k") == "let" and st.get("els") is not None and st.get("init") is not None:
